@@ -30,6 +30,7 @@ func runC08(c *Ctx) {
 	c08R1(c, p)
 	c08R2(c, p)
 	c08R3(c, p)
+	boardCopyRule(c, p, "C08.R4")
 }
 
 // allowed nondeterminism sites inside the closure of Search.Go: function -> kinds
